@@ -14,8 +14,12 @@ fn valid(c: &C) -> bool { c.a.all_intervals().iter().chain(c.b.all_intervals().i
 
 fn exec(t: &[String]) -> Option<String> {
     let c = dec(t)?;
-    let a = c.a.build();
-    let b = c.b.build();
+    // both sets over the same coordinate type and offset; the type must hold cov(a) + cov(b)
+    let ty = split_flavour(t).1;
+    let mut all = c.a.all_intervals(); all.extend(c.b.all_intervals());
+    let off = type_offset(ty, &all, &[]);
+    let a = AnyLapper::build_with(&c.a, ty, off);
+    let b = AnyLapper::build_with(&c.b, ty, off);
     let mut w = W::new();
     w.n(a.cov()).n(b.cov());
     let (u1, i1) = a.union_and_intersect(&b);
@@ -24,7 +28,8 @@ fn exec(t: &[String]) -> Option<String> {
     Some(w.join())
 }
 
-fn shrink(t: &[String]) -> Vec<Vec<String>> {
+fn shrink(t: &[String]) -> Vec<Vec<String>> { shrink_flavoured(t, shrink0) }
+fn shrink0(t: &[String]) -> Vec<Vec<String>> {
     let Some(c) = dec(t) else { return vec![] };
     let mut out = vec![];
     for a in shrink_hist(&c.a) { out.push(C { a, b: c.b.clone() }); }
@@ -72,6 +77,14 @@ fn gen(rng: &mut Rng, tier: Tier) -> Vec<Case> {
             if rng.chance(1, 2) { b.init.push((sb, eb, vb)); } else { b.ops.push(Op::Insert(sb, eb, vb)); }
         }
         out.push(Case::new(if small { "boundary" } else { "random" }, enc(&C { a, b })));
+    }
+    // coordinate-type flavours: every generated (non-exhaustive) case is, half of the time, run over another instantiation of
+    // `Lapper<I, _>`; for the narrow types a far-away interval is added so that the set spans more than half of the type's range
+    for c in out.iter_mut() {
+        if c.stream == "exhaustive" { continue; }
+        let ty = gen_ltype(rng);
+        if ty == 0 { continue; }
+        if let Some(mut d) = dec(&c.input) { if rng.chance(1, 2) { spread_for_type(rng, &mut d.a, ty, false); } c.input = push_flavour(enc(&d), ty); }
     }
     out
 }
